@@ -23,7 +23,12 @@ META = {
             'attributes (and types) differ - the number of units a literal loses after adjacent optional attributes depends on the message at hand - and '
             'requires every result to equal what a fresh formatter object gives for the same message object, what the extracted object machine '
             '(calls_model: tokens + pending counter threaded through the calls) gives, and to pass the oracle; '
-            'C12_format_is_a_function_of_pattern_and_message / C12_call_result_independent_of_history prove that the machine is stateless across calls.',
+            'C12_format_is_a_function_of_pattern_and_message / C12_call_result_independent_of_history prove that the machine is stateless across calls.  '
+            'Time texts: C12_time_token_prints_the_time_of_the_message / C12_time_text_is_that_of_the_message_at_hand prove that a %{time f} token contributes the '
+            'rendering of the time stamps of the message at hand on every call (C12_time_text_kept_per_key_is_refuted: a token that keeps its text per clock second does not); '
+            'the sequence leg constructs the messages of a sequence 0-8 ms apart inside one clock second (some across a second boundary) with 1-3 time tokens '
+            '(sub-second fields, process/boot, conditions, format specs) in the pattern, and every message (sequence or not) is formatted a second time by the same '
+            'object (up to 20 ms later) and by a fresh one: the text may not change; some messages wait 20 ms between construction and format().',
     'note': 'Trusted: Coq 8.16.1 kernel (vm_compute only on closed examples / witnesses), no axioms; tools/s2c/pattern.py '
             '(regex translation of patternformatter.cpp and logmessage.h: placeholder names, type names, alignment '
             'characters, suffix/fill, mid() offsets, in-band marker vs out-of-band counter, statement shapes of the '
@@ -31,7 +36,11 @@ META = {
             'harness/h_pattern.cpp.  Modelled, not verified: QString/QHash, QString::toInt, QChar::isSpace, '
             'QVariant::toString for string/int/bool.  The saturation of the pending-remove count at INT_MAX (commit 92e4552) is '
             'modelled explicitly (N.min ... src_pending_max) and exercised in the thorough tier.  Environment (taken from the real run, outside the model): '
-            '%{func} clean-up (C14), QDateTime::toString and process/boot seconds, thread id values.',
+            '%{func} clean-up (C14), QDateTime::toString, thread id values.  The time environment is computed by the harness from the message\'s own time stamps, '
+            'not by the formatter: lmsg.time().toString(f); boot = whole milliseconds of lmsg.steadyTime() printed S.mmm; process = the same minus the library\'s '
+            'process-start instant, which is a file-static and therefore bracketed from the renderings themselves (3 calibration messages at start-up, then every case: '
+            'a rendering p for steady time t confines the instant to (t-(p+1)ms, t-p ms]; a rendering outside the bracket is replaced by the value the bracket predicts). '
+            'Timing legs use real sleeps (2-25 ms) only to move time stamps / "now" apart; no verdict depends on how long a sleep really took.',
     'design_ref': 'DESIGN.md section 4, C12',
     'engine': 'coq+extraction+harness',
 }
@@ -81,9 +90,25 @@ ENVF = env_formats()
 
 
 class Gen:
-    def __init__(self, rng):
+    def __init__(self, rng, slow_budget=0, boundary_budget=0):
         self.rng = rng
         self.hist = {}
+        self.slow_budget = slow_budget            # how many cases may still ask the harness for a 20 ms wait
+        self.boundary_budget = boundary_budget    # how many messages may still wait for the next clock second
+
+    def timing(self, c):
+        """a message whose pattern prints a time text: let it wait between construction and format() and/or be
+        formatted a second time 20 ms later (the text belongs to the message's time stamps, not to 'now')"""
+        if '%{time' not in c['pat'] or self.slow_budget <= 0:
+            return c
+        relative = ('time process' in c['pat']) or ('time boot' in c['pat'])
+        if not relative and self.rng.random() < 0.9:
+            return c
+        self.slow_budget -= 1
+        d, a = self.rng.choice([(20, 0), (0, 20), (0, 20), (7, 20), (25, 3)])
+        c['delay'], c['again'] = d, a
+        self.hit('timing:delay=%d,again=%d' % (d, a))
+        return c
 
     def hit(self, k):
         self.hist[k] = self.hist.get(k, 0) + 1
@@ -244,14 +269,42 @@ class Gen:
             c['twice'] = True
             self.hit('message:formatted-twice')
         self.hit('ntok-items:%d' % min(n, 10))
-        return c
+        return self.timing(c)
 
     # ---- sequences: ONE formatter object, k >= 2 messages whose sets of present attributes differ ----
     SEQ_NAMES = ['a', 'b', 'w', 'u', 'n', 'v']
+    # time formats for the sequence leg: most have a sub-second field (messages of one clock second differ there)
+    SEQ_TF = ['hh:mm:ss.zzz', 'hh:mm:ss.zzz', 'zzz', 'zzz', 'ss.zzz', 'mm:ss.z', 'z', 'yyyy-MM-ddThh:mm:ss.zzz', 'yyyy-MM-dd hh:mm:ss.zzz', 's.zzz',
+              'hh:mm:ss', 'yyyy-MM-dd', 'hh', 'process', 'boot', '', 'hh:mm:ss.zzz ap', 'dd.MM.yyyy hh:mm:ss.zzz', 'zzz ms', 'mm:ss']
     SEQ_TAILS = ['::: ', '>>> ', 'abcdefgh', ' -- ', '[[[[', '12345', ZW + 'xyz ', '....', '%% %%>', '\U0001F600\U0001F600 ']
+
+    def time_token(self):
+        r = self.rng
+        tf = r.choice(self.SEQ_TF)
+        ph = '%{time' + ((r.choice([' ', ' ', '  ']) + tf) if tf else '') + (self.spec() if r.random() < 0.3 else '') + '}'
+        if r.random() < 0.25:
+            ph = '%{if-' + r.choice(['debug', 'info', 'warning', 'critical']) + '}' + r.choice(['', 'at ']) + ph + r.choice(['%{endif}', '%{endif}', ' %{endif}'])
+        return ph
+
+    def seq_time_pattern(self):
+        """%{time <format>} tokens (1-3 of them, with and without sub-second fields, some under a type condition, some with a
+        format spec) between literals, optional attributes and values"""
+        r = self.rng
+        parts = [r.choice(['', '', '[', '%{type} ', '#%{seq_number?1:0>6} '])]
+        for i in range(r.choice([1, 1, 1, 2, 2, 3])):
+            parts.append(self.time_token())
+            parts.append(r.choice(['', ' ', '] ', ' | ', ' %{type}: ', '%{u?1,1} ', ' <%{w?1,2}> ', '%{a?,1}%{b?,2}::: ']))
+        parts.append(r.choice(['%{message}', '%{message}', '', '%{category}: %{message}']))
+        if r.random() < 0.25:
+            parts.append(''.join(self.item() for _ in range(r.randint(1, 3))))
+        self.hit('seq:time-tokens')
+        return ''.join(parts)
 
     def seq_pattern(self):
         r = self.rng
+        x = r.random()
+        if x < 0.22:
+            return self.seq_time_pattern()
         x = r.random()
         if x < 0.7:
             # the shape in which the number of units a literal loses depends on the message at hand: adjacent optional
@@ -314,8 +367,50 @@ class Gen:
                 ms.append(c)
             if len({tuple(sorted(a[0] for a in c['attrs'])) for c in ms}) > 1:
                 break
+        if '%{time' in pat:
+            # the time stamps of consecutive messages: a few milliseconds apart inside one clock second (a message takes its
+            # time stamps when it is constructed: the harness sleeps before constructing it); rarely the next second
+            for j, c in enumerate(ms):
+                if j > 0:
+                    c['gap'] = r.choice([2, 3, 5, 2, 3, 5, 1, 0, 8])
+                    if self.boundary_budget > 0 and r.random() < 0.02:
+                        self.boundary_budget -= 1
+                        c['gap'] = -1
+                        self.hit('seq:gap=next-second')
+                    else:
+                        self.hit('seq:gap=%dms' % c['gap'])
+            if r.random() < 0.3:
+                self.timing(r.choice(ms))
         self.hit('seq:k=%d' % k)
         return ms
+
+    def fixed_time_sequences(self):
+        """always there: the library's own PrettyMessagePattern time format and friends, messages 3 ms apart within a second,
+        then across a second boundary, then 3 ms apart again"""
+        out = []
+        for pat, gaps in (('%{time hh:mm:ss.zzz} %{type} %{message}', [0, 3, -1, 3]), ('[%{time zzz:0>6}]', [0, 3, 4]),
+                          ('%{if-info}%{time ss.zzz}%{endif}%{u?,1} %{time process} %{message}', [0, 4, 2]),
+                          ('%{time yyyy-MM-dd hh:mm:ss}|%{time}|%{time boot}', [0, 3, 3])):
+            sq = []
+            for j, gp in enumerate(gaps):
+                c = {'pat': pat, 'type': 4 if j != 1 else 1, 'msg': 'm%d' % j, 'cat': 'default', 'file': 'c.cpp', 'fn': 'void f()', 'line': 42,
+                     'attrs': [['u', 's', 'x']] if j % 2 else [], 'seq': j, 'gap': gp}
+                sq.append(c)
+            sq[-1]['again'] = 20
+            out.append(sq)
+            self.hit('seq:fixed-time-sequence')
+        return out
+
+    def fixed_time_cases(self):
+        """always there: the two relative time formats, the message waits 20 ms before / is formatted again 20 ms after"""
+        out = []
+        for pat in ('%{time process}', '%{time boot}', '[%{time process:>12}] %{message}', '%{if-info}%{time boot}%{endif}|%{time process}',
+                    '%{time hh:mm:ss.zzz} %{message}'):
+            for d, a in ((20, 0), (0, 20)):
+                out.append({'pat': pat, 'type': 4, 'msg': 'm', 'cat': 'default', 'file': 'c.cpp', 'fn': 'void f()', 'line': 42, 'attrs': [],
+                            'delay': d, 'again': a})
+                self.hit('timing:fixed')
+        return out
 
 
 def case_env(c):
@@ -345,8 +440,10 @@ def impl_line(c):
         f += [hx(k), (t + hx(v)) if t == 's' else (t + str(v))]
     f += [str(len(ENVF))] + [hx(t) for t in ENVF]
     f += [hx(c.get('prefmt')), '1' if c.get('twice') else '0']
-    if 'seq' in c:
-        f += [str(c['seq'])]        # position in a sequence of messages formatted by ONE formatter object (0 = new object)
+    f += [str(c.get('seq', -1))]    # position in a sequence of messages formatted by ONE formatter object (0 = new object; -1 = no sequence)
+    # timing (ms): gap = sleep before the LogMessage is constructed (-1: until the wall clock enters the next second),
+    # delay = sleep between construction and the observed format() call, again = sleep before the same object formats the same message again
+    f += [str(c.get('gap', 0)), str(c.get('delay', 0)), str(c.get('again', 0))]
     return ' '.join(f)
 
 
@@ -354,8 +451,9 @@ def model_line(c, impl_out):
     """impl_out: the harness's output line -> (model input line, implementation's formatted text as hex) or None"""
     p = impl_out.split(' ')
     ENVF = case_env(c)
-    nseq = 1 if 'seq' in c else 0     # one more group: '=' / '#<what a fresh formatter object gave>'
-    if len(p) != 5 + len(ENVF) + nseq or p[0].startswith('!'):
+    nseq = 1 if 'seq' in c else 0
+    # two more groups: '=' / '#<what a fresh formatter object gave>', '=' / '#<what the same object gave for the same message later>'
+    if len(p) != 5 + len(ENVF) + 2 or p[0].startswith('!'):
         return None, None
     out, nul, tid, ptr, fnc = p[0], p[1], int(p[2]), int(p[3]), p[4]
     f = [hx(c['pat']), str(c['type']), hx(c['msg']), hx(c['cat']), hx(c['file']), hx(c['fn']), fnc, str(c['line']),
@@ -385,9 +483,14 @@ def evaluate(cases, impl, model):
         else:
             mlines.append(ml); idx.append(i)
             res[i] = {'crashed': False, 'impl': out}
+            p = o.split(' ')
+            res[i]['fresh'] = out if p[-2] == '=' else p[-2][1:]    # what a fresh formatter object gives for the same message object
+            res[i]['again'] = out if p[-1] == '=' else p[-1][1:]    # what the same object gives for the same message object when asked again (later)
+            env = dict(zip(case_env(c), p[5:]))
+            res[i]['stamp'] = unhx(env.get('hh:mm:ss.zzz', ''))    # the message's wall-clock time stamp (for the reports / coverage only)
+            res[i]['process_s'] = unhx(env.get('process', ''))
             if 'seq' in c:
-                fr = o.split(' ')[-1]
-                res[i]['fresh'] = out if fr == '=' else fr[1:]      # what a fresh formatter object gives for the same message object
+                res[i]['seq_member'] = True
     rc2, mo, err2 = vlib.run_lines(model, mlines, ['check'], timeout=900)
     if rc2 != 0 or len(mo) != len(mlines):
         raise RuntimeError('model driver failed: rc=%s %s' % (rc2, err2[-500:]))
@@ -406,7 +509,9 @@ def describe(c, r):
          'has_zero_width_space': ZW in ((c['msg'] or '') + c['pat'] + ''.join(str(a[2] or '') for a in c['attrs'])),
          'implementation_output': unhx(r.get('impl', '')), 'model_output': unhx(r.get('model', '')),
          'documented_concatenation': unhx(r.get('full', '')), 'active_removing_optional_attributes': r.get('nrem'),
-         'implementation_output_hex': r.get('impl'), 'model_output_hex': r.get('model')}
+         'implementation_output_hex': r.get('impl'), 'model_output_hex': r.get('model'),
+         'ms_between_construction_and_format': c.get('delay', 0), 'ms_before_second_format_call': c.get('again', 0),
+         'message_time_stamp': r.get('stamp'), 'second_call_output': unhx(r.get('again', '')), 'fresh_object_output': unhx(r.get('fresh', ''))}
     return d
 
 
@@ -498,6 +603,33 @@ def stateful_members(rs):
     return [j for j, r in enumerate(rs) if not r['crashed'] and r.get('fresh') is not None and r['fresh'] != r['impl']]
 
 
+def reformat_differs(r):
+    """the same formatter object (or, for a case with its own object, another fresh one) asked again for the SAME LogMessage gave another text"""
+    return (not r['crashed']) and (r.get('again', r['impl']) != r['impl'] or ('seq_member' not in r and r.get('fresh', r['impl']) != r['impl']))
+
+
+def report_reformat(chk, c, impl, model, found_in, count):
+    """c: a single case (no 'seq') for which format() of the same LogMessage object returns different texts at different times"""
+    def bad(c1):
+        return reformat_differs(evaluate([c1], impl, model)[0])
+    if not bad(c):
+        return False
+    small = shrink(c, impl, model, bad)
+    r = evaluate([small], impl, model)[0]
+    if not reformat_differs(r):
+        small = c; r = evaluate([small], impl, model)[0]
+        if not reformat_differs(r):
+            return False
+    second = r['again'] if r['again'] != r['impl'] else r['fresh']
+    chk.fail('the text is not a function of the message: pattern %r, ONE LogMessage object (time stamp %s, %s s after process start), format() called %d ms after it was constructed '
+             'returns %r; called again %d ms later%s it returns %r (model, from the message\'s own time stamps: %r)'
+             % (small['pat'], r.get('stamp'), r.get('process_s'), small.get('delay', 0), unhx(r['impl']), small.get('again', 0),
+                '' if r['again'] != r['impl'] else ' on a fresh formatter object', unhx(second), unhx(r.get('model', ''))),
+             dict(describe(small, r), kind='reformat', found_in=found_in, cases_with_changing_text=count,
+                  first_call_output=unhx(r['impl']), later_call_output=unhx(second), oracle_holds_on_first_call=r.get('oracle')), kind='reformat')
+    return True
+
+
 def shrink_sequence(seq, impl, model):
     def bad(sq):
         sq = renumber(sq)
@@ -523,6 +655,9 @@ def shrink_sequence(seq, impl, model):
 def describe_sequence(seq, rs):
     return [{'call': j + 1, 'message': c['msg'], 'type': c['type'], 'attributes': c['attrs'],
              'pre_formatted_with': c.get('prefmt'), 'formatted_twice': bool(c.get('twice')),
+             'constructed_ms_after_previous_call': ('next clock second' if c.get('gap') == -1 else c.get('gap', 0)), 'message_time_stamp': r.get('stamp'),
+             'ms_between_construction_and_format': c.get('delay', 0), 'ms_before_second_format_call': c.get('again', 0),
+             'second_call_on_kept_object_output': unhx(r.get('again', '')),
              'kept_object_output': unhx(r.get('impl', '')) if not r['crashed'] else r.get('impl_raw'),
              'fresh_object_output': unhx(r.get('fresh', '')), 'model_output': unhx(r.get('model', '')),
              'documented_concatenation': unhx(r.get('full', '')), 'active_removing_optional_attributes': r.get('nrem'),
@@ -538,7 +673,8 @@ def sequence_leg(chk, g, seqs, impl, model, ncorpus=0):
     fresh formatter object gives for the very same message object (checked inside the harness, no model involved),
     (2) what the extracted object machine (calls_model) gives, (3) accepted by the extracted oracle for that message."""
     rss = eval_sequences(seqs, impl, model)
-    crashed, stateful, single_bad, differs = [], [], [], []
+    crashed, stateful, single_bad, differs, reformat = [], [], [], [], []
+    time_seqs = same_second_pairs = boundary_pairs = subsecond_fmt_seqs = 0
     nmsg = 0
     hist_k, hist_tok, hist_rem = {}, {}, {}
     distinct_out = 0
@@ -547,6 +683,17 @@ def sequence_leg(chk, g, seqs, impl, model, ncorpus=0):
         hist_k[min(len(sq), 8)] = hist_k.get(min(len(sq), 8), 0) + 1
         if any(r['crashed'] for r in rs):
             crashed.append(si); continue
+        if '%{time' in sq[0]['pat']:
+            time_seqs += 1
+            subsecond_fmt_seqs += 1 if 'z' in sq[0]['pat'] else 0
+            for a, b in zip(rs, rs[1:]):
+                if a['stamp'][:8] == b['stamp'][:8] and a['stamp'] != b['stamp']:
+                    same_second_pairs += 1
+                elif a['stamp'][:8] != b['stamp'][:8]:
+                    boundary_pairs += 1
+        ag = [j for j, r in enumerate(rs) if r.get('again', r['impl']) != r['impl']]
+        if ag:
+            reformat.append((si, ag[0])); continue
         if stateful_members(rs):
             stateful.append(si); continue
         for j, r in enumerate(rs):
@@ -565,6 +712,15 @@ def sequence_leg(chk, g, seqs, impl, model, ncorpus=0):
         j = [r['crashed'] for r in rss[si]].index(True)
         chk.fail('the formatter threw / the harness died while one formatter object formatted a sequence of messages (call %d)' % (j + 1),
                  {'kind': 'crash', 'sequence': seqs[si], 'pattern': seqs[si][0]['pat'], 'raw': rss[si][j].get('impl_raw')}, kind='crash')
+    if reformat:
+        si, j = min(reformat, key=lambda t: len(seqs[t[0]][0]['pat']))
+        c = {k: v for k, v in seqs[si][j].items() if k not in ('seq', 'gap')}
+        if not report_reformat(chk, c, impl, model, 'sequence leg', len(reformat)):
+            r = rss[si][j]
+            chk.fail('call %d of a sequence: the same formatter object asked again %d ms later for the same LogMessage returns %r instead of %r'
+                     % (j + 1, seqs[si][j].get('again', 0), unhx(r['again']), unhx(r['impl'])),
+                     {'kind': 'reformat', 'pattern': seqs[si][0]['pat'], 'sequence': seqs[si], 'failing_call': j + 1,
+                      'calls': describe_sequence(seqs[si], rss[si])}, kind='reformat')
     if stateful:
         si = min(stateful, key=lambda i: (i >= ncorpus, len(seqs[i]), len(seqs[i][0]['pat'])))
         small = shrink_sequence(seqs[si], impl, model)
@@ -575,10 +731,10 @@ def sequence_leg(chk, g, seqs, impl, model, ncorpus=0):
         j = bad[0]
         r = rs[j]
         chk.fail('format() is not a function of (pattern, message): ONE PatternFormatter object with pattern %r formats %d message(s) in a row; '
-                 'call %d (message %r, attributes %r) returns %r, while a fresh formatter object gives %r for the same message '
-                 '(model %r, documented concatenation %r; the extracted oracle %s the returned text); earlier calls had attributes %r'
-                 % (small[0]['pat'], len(small), j + 1, small[j]['msg'], small[j]['attrs'], unhx(r['impl']), unhx(r['fresh']), unhx(r.get('model', '')),
-                    unhx(r.get('full', '')), 'accepts' if r.get('oracle') else 'REJECTS', [c['attrs'] for c in small[:j]]),
+                 'call %d (message %r, attributes %r, time stamp %s) returns %r, while a fresh formatter object gives %r for the same message '
+                 '(model %r, documented concatenation %r; the extracted oracle %s the returned text); earlier calls had attributes %r and time stamps %r'
+                 % (small[0]['pat'], len(small), j + 1, small[j]['msg'], small[j]['attrs'], r.get('stamp'), unhx(r['impl']), unhx(r['fresh']), unhx(r.get('model', '')),
+                    unhx(r.get('full', '')), 'accepts' if r.get('oracle') else 'REJECTS', [c['attrs'] for c in small[:j]], [x.get('stamp') for x in rs[:j]]),
                  {'kind': 'sequence', 'pattern': small[0]['pat'], 'sequence': small, 'failing_call': j + 1, 'calls': describe_sequence(small, rs),
                   'got': unhx(r['impl']), 'fresh_formatter_object_gives': unhx(r['fresh']), 'model_output': unhx(r.get('model', '')),
                   'oracle_holds_on_got': r.get('oracle'), 'sequences_with_history_dependent_results': len(stateful),
@@ -611,10 +767,16 @@ def sequence_leg(chk, g, seqs, impl, model, ncorpus=0):
                   {'kind': 'correspondence', 'sequence': seqs[si], 'failing_call': j + 1, 'calls': describe_sequence(seqs[si], rss[si])})
     return {'sequences': len(seqs), 'calls': nmsg, 'corpus_sequences': ncorpus,
             'rule': 'one PatternFormatter object per sequence, k messages with the same pattern; the sets of present attributes differ between the '
-                    'messages (types and texts in half of the sequences); 70% of the patterns: adjacent optional attributes with remove-after '
-                    'counts (some under a type condition) followed by a literal longer than the counts',
+                    'messages (types and texts in half of the sequences); 55% of the patterns: adjacent optional attributes with remove-after '
+                    'counts (some under a type condition) followed by a literal longer than the counts; 22%: 1-3 %{time <format>} tokens (with and '
+                    'without sub-second fields, process/boot, under conditions, with format specs), the messages constructed 0-8 ms apart inside one '
+                    'clock second (some across a second boundary); every message is formatted twice by the kept object and once by a fresh one',
             'sequences_with_differing_attribute_sets': sum(1 for sq in seqs if len(missing_sets(sq)) > 1),
             'sequences_with_at_least_two_distinct_outputs': distinct_out,
+            'sequences_with_time_tokens': time_seqs, 'sequences_with_sub_second_time_format': subsecond_fmt_seqs,
+            'consecutive_messages_in_one_clock_second_with_different_milliseconds': same_second_pairs,
+            'consecutive_messages_in_different_clock_seconds': boundary_pairs,
+            'same_message_formatted_again_gave_another_text': len(reformat),
             'history_dependent_results': len(stateful), 'oracle_falsified_calls': len(single_bad), 'model_differs_calls': len(differs), 'crashed_sequences': len(crashed),
             'length_histogram': {str(k): v for k, v in sorted(hist_k.items())},
             'tokens_histogram': {str(k): v for k, v in sorted(hist_tok.items())},
@@ -644,7 +806,8 @@ def run():
                    'tools/s2c/pattern.py translator (patternformatter.cpp, logmessage.h -> SrcPattern.v)',
                    'extraction ExtrOcamlBasic, no Extract Constant; ocaml/drv_pattern.ml; harness/h_pattern.cpp',
                    'modelled not verified: QString/QHash, QString::toInt, QChar::isSpace, QVariant::toString (string/int/bool)',
-                   'environment taken from the real run: %{func} clean-up (C14), QDateTime::toString, process/boot seconds, thread id']
+                   'environment taken from the real run: %{func} clean-up (C14), QDateTime::toString, thread id; process/boot seconds computed by the harness from lmsg.steadyTime() '
+                   '(process start instant bracketed from the formatter\'s own renderings, see META.note)']
     chk.assumptions = ['widths are capped at %d in generated patterns (F6: width near INT_MAX -> bad_alloc is C14\'s finding)' % MAXW,
                        'category/file/function are printable ASCII (the property\'s quantifier)',
                        'attribute values are strings, ints or bools (QVariant::toString of other types is outside the model)',
@@ -655,9 +818,9 @@ def run():
     model = vlib.build_model('pattern')
     impl = vlib.build_harness('pattern')
     thorough = chk.tier == 'thorough'
-    g = Gen(chk.rng)
+    g = Gen(chk.rng, slow_budget=400 if thorough else 70, boundary_budget=20 if thorough else 3)
     corpus = load_corpus()
-    cases = list(corpus) + [g.case() for _ in range(100000 if thorough else 15000)]
+    cases = list(corpus) + g.fixed_time_cases() + [g.case() for _ in range(100000 if thorough else 15000)]
     if thorough:
         # the pending count saturates at INT_MAX (only here: code carrying markers in band would allocate 2^31 of them)
         base = dict(cases[0]) if cases else g.case()
@@ -682,6 +845,12 @@ def run():
     if crashed:
         i = crashed[0]
         chk.fail('the formatter threw / the harness died on a generated pattern', dict(describe(cases[i], res[i]), kind='crash', raw=res[i].get('impl_raw')), kind='crash')
+    # the same LogMessage formatted again (same object, 0-20 ms later / another fresh object) must give the same text
+    changing = [i for i, r in enumerate(res) if i not in skip and reformat_differs(r)]
+    if changing:
+        for i in sorted(changing, key=lambda i: len(cases[i]['pat']))[:3]:
+            if report_reformat(chk, cases[i], impl, model, 'single-message leg', len(changing)):
+                break
     # property falsified on the implementation: report one input per class (verbatim = no removal requested)
     def null_wrong(r):
         return r['impl'].endswith('/null') != r['null_expected']
@@ -737,13 +906,16 @@ def run():
                 "% { } : ? U+200B U+200C U+FEFF astral empty long; non-trivial = parses to >= 2 tokens; corpus/C12 replayed first",
         'corpus_cases': len(corpus), 'disagreements_model_vs_impl': len(differs), 'oracle_evaluated_on_impl_outputs': len(ok),
         'oracle_falsified': len(falsified), 'crashed': len(crashed), 'env_missing_skipped': len(env_missing),
+        'same_message_formatted_again_gave_another_text': len(changing),
+        'cases_waiting_before_format_or_formatted_again_later': sum(1 for c in cases if c.get('delay') or c.get('again')),
+        'cases_with_time_placeholder': sum(1 for c in cases if '%{time' in c['pat']),
         'tokens_histogram': {str(k): v for k, v in sorted(hist_tok.items())},
         'active_removing_optional_attributes_histogram': {str(k): v for k, v in sorted(hist_rem.items())},
         'outputs_exactly_documented_concatenation': sum(1 for i in ok if res[i]['impl'] == res[i]['full']),
         'cases_with_zero_width_space_in_values': sum(1 for c in cases if ZW in (c['msg'] or '') or any(ZW in str(a[2] or '') for a in c['attrs'])),
         'generator_histogram': dict(sorted(g.hist.items()))})
     cseqs = load_corpus(sequences=True)
-    seqs = cseqs + [g.sequence() for _ in range(12000 if thorough else 1500)]
+    seqs = cseqs + g.fixed_time_sequences() + [g.sequence() for _ in range(12000 if thorough else 1500)]
     chk.cov['sequence_leg'] = sequence_leg(chk, g, seqs, impl, model, len(cseqs))
     chk.cov['evaluations'] = len(cases) + chk.cov['sequence_leg']['calls']
     chk.cov['generator_histogram'] = dict(sorted(g.hist.items()))
